@@ -172,14 +172,16 @@ impl Workspace {
 
         let mut entries = Vec::new();
 
-        for (path, rel) in files.iter().zip(resolved) {
+        for rel in resolved {
+            // Read the same file rewind will later restore (root-relative, not cwd-relative).
+            let path = self.root.join(&rel);
             let dest = files_root.join(&rel);
 
             if path.exists() {
                 if let Some(parent) = dest.parent() {
                     fs::create_dir_all(parent)?;
                 }
-                let bytes = fs::read(path)?;
+                let bytes = fs::read(&path)?;
                 let hash = hash_bytes(&bytes);
                 fs::write(&dest, &bytes)?;
                 entries.push(CheckpointFile {
